@@ -71,6 +71,7 @@ type cfg struct {
 	CompactW      int
 	ConfChange    bool
 	OwnPayloads   bool // the transport declares ReadyMessagePayloadOwner like the production transport
+	Relay         bool // directed skeleton: a snapshot receiver becomes leader and serves the next laggard
 	FaultBudget   int
 	MaxSteps      int
 }
@@ -103,6 +104,8 @@ type slotModel struct {
 	leaders    int                 // number of distinct (term, leader) observations
 	transferTo int
 	transferAt uint64
+	// restoredLive: the replica that most recently installed a snapshot received from a leader
+	restoredLive int
 }
 
 type seamFail struct {
@@ -280,6 +283,8 @@ type replica struct {
 	core *smCore
 	// stored: index -> payloads this replica ever wrote to its raft log there
 	stored map[uint64][]string
+	// verified: the state machine content was compared with the reference up to this applied index
+	verified uint64
 }
 
 func (rp *replica) name() string { return fmt.Sprintf("n%d/s%d", rp.node.id, rp.slot) }
@@ -360,6 +365,7 @@ type world struct {
 	compacts    int
 	confChanges int
 	confDone    []confDone // guarded by mu
+	relay       relayPlan
 	liveRestore int
 
 	leaderChangeAfterAck bool
@@ -474,20 +480,30 @@ func (t *simTransport) Send(ctx context.Context, batch []multiraft.Envelope) err
 	now := w.now()
 	w.mu.Lock()
 	for _, env := range batch {
+		// (the message is produced by the code under test: a codec failure is an
+		// observation about it, not harness trouble)
 		raw, err := env.Message.Marshal()
 		if err != nil {
-			w.failLocked("harness", "marshal", "marshal", "raft message does not marshal: %v", err)
+			w.failLocked("wire-codec-failure", "marshal", "marshal", "n%d/s%d: outgoing raft message %s does not marshal: %v", t.n.id, env.SlotID, env.Message.Type, err)
 			continue
 		}
 		var m raftpb.Message
 		if err := m.Unmarshal(raw); err != nil {
-			w.failLocked("harness", "unmarshal", "unmarshal", "raft message does not unmarshal: %v", err)
+			w.failLocked("wire-codec-failure", "unmarshal", "unmarshal", "n%d/s%d: outgoing raft message %s does not survive the protobuf codec: %v", t.n.id, env.SlotID, env.Message.Type, err)
 			continue
 		}
 		to := int(m.To)
 		switch m.Type {
 		case raftpb.MsgSnap:
 			w.probeLocked("raft.snapshot_sent")
+			if m.Snapshot != nil {
+				// what the code under test puts on the wire is an observation: it must be
+				// the state machine state at the snapshot index
+				who := fmt.Sprintf("n%d/s%d", t.n.id, env.SlotID)
+				if s, _, ok := w.checkSnapshotPayloadLocked("wire", who, env.SlotID, m.Snapshot.Metadata.Index, stripSlotEnvelope(m.Snapshot.Data)); ok && s.node != t.n.id {
+					w.probeLocked("raft.snapshot_relayed_by_non_producer")
+				}
+			}
 		case raftpb.MsgProp:
 			w.probeLocked("raft.proposal_forwarded")
 		case raftpb.MsgTimeoutNow:
@@ -615,22 +631,24 @@ func (g *gateStore) Save(ctx context.Context, st multiraft.PersistentState) erro
 func (g *gateStore) checkSnapshotSave(ctx context.Context, st multiraft.PersistentState) {
 	w := g.w
 	idx := st.Snapshot.Metadata.Index
-	snap, err := decodeSMSnapshot(stripSlotEnvelope(st.Snapshot.Data))
-	if err == nil && (snap.node != g.rep.node.id || snap.inc != g.inc) {
-		return // produced elsewhere: a snapshot received from a leader (checked in Restore)
-	}
+	payload := stripSlotEnvelope(st.Snapshot.Data)
+	snap, err := decodeSMSnapshot(payload)
 	w.mu.Lock()
 	defer w.mu.Unlock()
-	w.probeLocked("compaction.ran")
-	w.eventLocked("COMPACT %s at %d smlast %d", g.rep.name(), idx, snap.last)
-	if err != nil {
-		w.failLocked("harness", "snapshot-decode", g.rep.name(), "%s: compaction snapshot does not decode: %v", g.rep.name(), err)
+	if err != nil || snap.node != g.rep.node.id || snap.inc != g.inc {
+		// not produced by this incarnation's state machine: a snapshot received from a
+		// leader on its way to this replica's disk. Whatever the code under test
+		// stores must be the state at the snapshot index.
+		w.checkSnapshotPayloadLocked("stored", g.rep.name(), g.rep.slot, idx, payload)
 		return
 	}
+	w.probeLocked("compaction.ran")
+	w.eventLocked("COMPACT %s at %d smlast %d", g.rep.name(), idx, snap.last)
 	if snap.last > idx {
 		w.failLocked("snapshot-ahead-of-index", "", g.rep.name(), "%s: compaction snapshot at raft index %d contains state-machine commands up to %d", g.rep.name(), idx, snap.last)
 		return
 	}
+	defer w.checkSnapshotPayloadLocked("stored", g.rep.name(), g.rep.slot, idx, payload)
 	if snap.last < idx {
 		ents, err := g.inner.Entries(ctx, snap.last+1, idx+1, 0)
 		if err == nil {
@@ -865,55 +883,23 @@ func (c *smCore) restore(snap multiraft.Snapshot) error {
 		return errCrashed
 	}
 	w := c.w
-	s, err := decodeSMSnapshot(snap.Data)
 	w.mu.Lock()
 	defer w.mu.Unlock()
 	m := w.model(c.rep.slot)
-	w.eventLocked("RESTORE %s idx%d t%d smlast%d count%d opening=%v", c.who(), snap.Index, snap.Term, s.last, s.count, c.opening)
-	if err != nil {
-		w.failLocked("snapshot-corrupt", "", c.who(), "%s: snapshot at index %d does not decode: %v", c.who(), snap.Index, err)
-		return nil
-	}
+	s, got, ok := w.checkSnapshotPayloadLocked("restore", c.who(), c.rep.slot, snap.Index, snap.Data)
+	w.eventLocked("RESTORE %s idx%d t%d smlast%d count%d opening=%v ok=%v", c.who(), snap.Index, snap.Term, s.last, s.count, c.opening, ok)
 	if !c.opening {
 		w.probeLocked("snapshot.restored_live")
 		w.liveRestore++
+		m.restoredLive = c.rep.node.id
 		if snap.Index <= c.cursor {
 			w.failLocked("reapplied-entry", "snapshot-regress", c.who(), "%s: snapshot at index %d restored after index %d was applied in the same incarnation", c.who(), snap.Index, c.cursor)
 		}
 	} else {
 		w.probeLocked("snapshot.restored_on_open")
 	}
-	if s.last > snap.Index {
-		w.failLocked("snapshot-ahead-of-index", "restore", c.who(), "%s: snapshot at raft index %d holds commands up to %d", c.who(), snap.Index, s.last)
-		return nil
-	}
-	// content: exactly the canonical commands at or below the snapshot index
-	var want []rec
-	for _, i := range sortedIdx(m.canon) {
-		if i <= snap.Index {
-			want = append(want, m.canon[i])
-		}
-	}
-	var got []rec
-	if s.digestOnly {
-		if uint64(len(want)) == s.count && digestRecs(want) == s.digest {
-			got = want
-		} else {
-			w.failLocked("snapshot-content", "digest", c.who(), "%s: snapshot at index %d has count %d digest %x; the commands applied at or below that index are count %d digest %x",
-				c.who(), snap.Index, s.count, s.digest, len(want), digestRecs(want))
-			return nil
-		}
-	} else {
-		got = s.recs
-		if digestRecs(got) != s.digest || uint64(len(got)) != s.count {
-			w.failLocked("snapshot-corrupt", "self-digest", c.who(), "%s: snapshot at index %d fails its own digest", c.who(), snap.Index)
-			return nil
-		}
-		if len(got) != len(want) || digestRecs(got) != digestRecs(want) {
-			w.failLocked("snapshot-content", "", c.who(), "%s: snapshot at index %d holds %d commands (last %d); %d commands were applied at or below that index (digests %x vs %x): %s",
-				c.who(), snap.Index, len(got), s.last, len(want), digestRecs(got), digestRecs(want), firstRecDiff(got, want))
-			return nil
-		}
+	if !ok {
+		return nil // the violation is recorded; the run ends at the next quiescent state
 	}
 	c.rep.sm.recs = append([]rec(nil), got...)
 	// indexes between the last command in the snapshot and the snapshot index were passed without applying
@@ -926,6 +912,64 @@ func (c *smCore) restore(snap multiraft.Snapshot) error {
 		c.cursor = snap.Index
 	}
 	return nil
+}
+
+// checkSnapshotPayloadLocked judges a state-machine snapshot payload at one of
+// the places where the code under test produced, stored or forwarded it
+// (where = "stored": Storage.Save, "wire": MsgSnap handed to the transport,
+// "restore": StateMachine.Restore input). A snapshot at raft index i must be
+// exactly the reference state at i: the commands applied at or below i, in
+// order. A payload that does not decode, or decodes to another state, is a
+// property violation (a replica installing it reaches index i without the
+// commands below it). It returns the decoded header, the records to install and
+// whether the payload was right.
+func (w *world) checkSnapshotPayloadLocked(where, who string, slot multiraft.SlotID, index uint64, payload []byte) (smSnapshot, []rec, bool) {
+	m := w.model(slot)
+	s, err := decodeSMSnapshot(payload)
+	if err != nil {
+		w.failLocked("snapshot-content-wrong", where, who, "%s: %s snapshot of slot %d at raft index %d does not decode (%d bytes): %v; %d commands were applied at or below that index",
+			who, where, slot, index, len(payload), err, countAtOrBelow(m.canon, index))
+		return s, nil, false
+	}
+	if s.last > index {
+		w.failLocked("snapshot-ahead-of-index", where, who, "%s: %s snapshot at raft index %d holds commands up to %d", who, where, index, s.last)
+		return s, nil, false
+	}
+	var want []rec
+	for _, i := range sortedIdx(m.canon) {
+		if i <= index {
+			want = append(want, m.canon[i])
+		}
+	}
+	if s.digestOnly {
+		if uint64(len(want)) != s.count || digestRecs(want) != s.digest {
+			w.failLocked("snapshot-content-wrong", where, who, "%s: %s snapshot at raft index %d has count %d digest %x; the commands applied at or below that index are count %d digest %x",
+				who, where, index, s.count, s.digest, len(want), digestRecs(want))
+			return s, nil, false
+		}
+		return s, want, true
+	}
+	got := s.recs
+	if digestRecs(got) != s.digest || uint64(len(got)) != s.count {
+		w.failLocked("snapshot-content-wrong", where, who, "%s: %s snapshot at raft index %d fails its own digest (count %d, %d records)", who, where, index, s.count, len(got))
+		return s, nil, false
+	}
+	if len(got) != len(want) || digestRecs(got) != digestRecs(want) {
+		w.failLocked("snapshot-content-wrong", where, who, "%s: %s snapshot at raft index %d holds %d commands (last %d); %d commands were applied at or below that index: %s",
+			who, where, index, len(got), s.last, len(want), firstRecDiff(got, want))
+		return s, nil, false
+	}
+	return s, got, true
+}
+
+func countAtOrBelow(m map[uint64]rec, index uint64) int {
+	n := 0
+	for i := range m {
+		if i <= index {
+			n++
+		}
+	}
+	return n
 }
 
 func firstRecDiff(got, want []rec) string {
